@@ -24,7 +24,8 @@
    * csr.Register, csr.FieldAction, the csr.action classes and event.Monitor's plain ports have no model function:
      their lemmas pin the declaration to the expression written here. *)
 From Coq Require Import ZArith List Bool String Lia ZifyBool Permutation.
-From Soc Require Import Lib.Bits Model.Wiring Proofs.Sram.
+From Soc Require Import Lib.Bits Model.Wiring Proofs.Sram Proofs.Wiring.
+Module MW := Soc.Model.Wiring.
 From Soc Require Import Lib.Res Lib.PyWire.
 From SocGen Require Import SigGen.
 Import ListNotations.
@@ -33,10 +34,10 @@ Open Scope Z_scope.
 
 (* ================================================================ conversions *)
 
-Definition cv_exn (e : Wiring.exn) : exn :=
-  match e with Wiring.ValueError => ValueError | Wiring.TypeError => TypeError end.
-Definition cv {A B} (f : A -> B) (r : Wiring.res A) : res B :=
-  match r with Wiring.Ok a => Ok (f a) | Wiring.Err e => Err (cv_exn e) end.
+Definition cv_exn (e : MW.exn) : exn :=
+  match e with MW.ValueError => ValueError | MW.TypeError => TypeError end.
+Definition cv {A B} (f : A -> B) (r : MW.res A) : res B :=
+  match r with MW.Ok a => Ok (f a) | MW.Err e => Err (cv_exn e) end.
 
 Definition acc_of (a : csr_Element_Access) : access :=
   match a with csr_Element_Access_R => AccR | csr_Element_Access_W => AccW | csr_Element_Access_RW => AccRW end.
@@ -70,8 +71,8 @@ Fixpoint feats_list (l : list (earg wishbone_Feature)) : list wishbone_Feature :
   | a :: l' => match wishbone_Feature_call a with Ok f => f :: feats_list l' | Err _ => feats_list l' end
   end.
 
-Definition cv_shapelike (x : shapelike) : Wiring.shapelike :=
-  match x with SLInt n => Wiring.SLInt n | SLCast w s => Wiring.SLCast w s | SLBad => Wiring.SLBad end.
+Definition cv_shapelike (x : shapelike) : MW.shapelike :=
+  match x with SLInt n => MW.SLInt n | SLCast w s => MW.SLCast w s | SLBad => MW.SLBad end.
 
 Definition cv_flow (f : flow) : pflow := match f with FIn => PIn | FOut => POut end.
 Definition mname_str (n : mname) : string :=
@@ -441,11 +442,11 @@ Proof.
             Ok {| wishbone_Signature__addr_width := a; wishbone_Signature__data_width := d;
                   wishbone_Signature__features := fset; wishbone_Signature__granularity := g;
                   wishbone_Signature_members := [] |}) =
-      cv id (if negb (wb_width_ok d) then Wiring.Err Wiring.ValueError
-             else if negb (wb_width_ok g) then Wiring.Err Wiring.ValueError
-             else if d <? g then Wiring.Err Wiring.ValueError
-             else if feats_bad fs then Wiring.Err Wiring.ValueError
-             else Wiring.Ok (SWb {| w_addr_width := a; w_data_width := d; w_granularity := g;
+      cv id (if negb (wb_width_ok d) then MW.Err MW.ValueError
+             else if negb (wb_width_ok g) then MW.Err MW.ValueError
+             else if d <? g then MW.Err MW.ValueError
+             else if feats_bad fs then MW.Err MW.ValueError
+             else MW.Ok (SWb {| w_addr_width := a; w_data_width := d; w_granularity := g;
                                     w_features := feats_of (feats_list fs) |}))).
   { intros d g. cbn [pyint_in zof]. fold (z_in d [8; 16; 32; 64]). fold (z_in g [8; 16; 32; 64]).
     rewrite !width_in_ok, Z.gtb_ltb, features_mapR.
@@ -537,3 +538,195 @@ Proof.
   intros s []; try reflexivity. unfold gen_wishbone_Signature_eq. rewrite fset_eqb_spec. reflexivity.
 Qed.
 Print Assumptions tie_wb_eq.
+
+(* ================================================================ interfaces: the memory_map setters *)
+
+(* csr.Interface.memory_map = m: both widths must agree (the isinstance check cannot fail for a MemoryMap) *)
+Theorem tie_csr_iface_setter : forall i m,
+  gen_csr_Interface_set_memory_map i m =
+  if negb (memory_MemoryMap__addr_width m =? gen_csr_Interface_get_addr_width i) then Err ValueError
+  else if negb (memory_MemoryMap__data_width m =? gen_csr_Interface_get_data_width i) then Err ValueError
+  else Ok tt.
+Proof. reflexivity. Qed.
+Print Assumptions tie_csr_iface_setter.
+
+(* wishbone.Interface.memory_map = m: data width = granularity, address width = max(1, addr_width + log2(ratio)) *)
+Theorem tie_wb_iface_setter : forall i m,
+  gen_wishbone_Interface_set_memory_map i m =
+  if negb (memory_MemoryMap__data_width m =? gen_wishbone_Interface_get_granularity i) then Err ValueError
+  else let! k := exact_log2 (gen_wishbone_Interface_get_data_width i / gen_wishbone_Interface_get_granularity i) in
+       if negb (memory_MemoryMap__addr_width m =? Z.max 1 (gen_wishbone_Interface_get_addr_width i + k)) then Err ValueError
+       else Ok tt.
+Proof. reflexivity. Qed.
+Print Assumptions tie_wb_iface_setter.
+
+(* MemoryMap(addr_width=, data_width=, alignment=): the three checks, all ValueError *)
+Theorem tie_memory_map_init : forall aw dw al,
+  rmap (fun m => (memory_MemoryMap__addr_width m, memory_MemoryMap__data_width m, memory_MemoryMap__alignment m))
+       (gen_memory_MemoryMap_init aw dw al) =
+  if negb (is_int aw) || (zof aw <=? 0) then Err ValueError
+  else if negb (is_int dw) || (zof dw <=? 0) then Err ValueError
+  else if negb (is_int al) || (zof al <? 0) then Err ValueError
+  else Ok (zof aw, zof dw, zof al).
+Proof.
+  intros aw dw al. unfold gen_memory_MemoryMap_init. repeat (split_if; [reflexivity|]). reflexivity.
+Qed.
+Print Assumptions tie_memory_map_init.
+
+(* ================================================================ components: views *)
+
+(* a member of a component's ports dict as the model describes it *)
+Inductive amem := AIface (p : port) (dims : list Z) | APort (f : flow) (w : Z) (s : bool) (dims : list Z).
+Definition flow_of (f : pflow) : flow := match f with PIn => FIn | POut => FOut end.
+Definition absm (m : pmember gsig) : amem :=
+  match pm_body m with
+  | BSig fl g => AIface {| p_flow := flow_of (pm_flow m); p_sig := (fl, abs g) |} (pm_dims m)
+  | BShape sh => APort (flow_of (pm_flow m)) (fst sh) (snd sh) (pm_dims m)
+  end.
+Definition absd (d : pdict (pmember gsig)) : list (string * amem) := map (fun kv => (fst kv, absm (snd kv))) d.
+
+(* `component.<port>.signature` for the attribute Component.__init__ created: (flipped?, signature) *)
+Definition csr_attr (a : bool * csr_Interface) : sigv :=
+  (xorb (fst a) (fst (csr_Interface_signature (snd a))), abs_csr (snd (csr_Interface_signature (snd a)))).
+Definition wb_attr (a : bool * wishbone_Interface) : sigv :=
+  (xorb (fst a) (fst (wishbone_Interface_signature (snd a))), abs_wb (snd (wishbone_Interface_signature (snd a)))).
+Definition src_attr (a : bool * event_Source) : sigv :=
+  (xorb (fst a) (fst (event_Source_signature (snd a))), abs_src (snd (event_Source_signature (snd a)))).
+Definition elem_attr (a : bool * csr_Element) : sigv :=
+  (xorb (fst a) (fst (csr_Element_signature (snd a))), abs_elem (snd (csr_Element_signature (snd a)))).
+Definition field_attr (a : bool * csr_FieldPort) : sigv :=
+  (xorb (fst a) (fst (csr_FieldPort_signature (snd a))), abs_field (snd (csr_FieldPort_signature (snd a)))).
+
+Lemma Ok_inj {A} (x y : A) : Ok x = Ok y -> x = y.
+Proof. intro H. injection H as H. exact H. Qed.
+Lemma pair_inj {A B} (a a' : A) (b b' : B) : (a, b) = (a', b') -> a = a' /\ b = b'.
+Proof. intro H. injection H as H1 H2. auto. Qed.
+
+(* ---- what a successful / failing generated signature constructor means, in the model's terms *)
+
+Lemma csr_init_ok a d s : gen_csr_Signature_init (VInt a) (VInt d) = Ok s ->
+  mk_csr a d = MW.Ok (abs_csr s) /\ abs_csr s = SCsr {| c_addr_width := a; c_data_width := d |}.
+Proof.
+  intro H. pose proof (tie_csr_init (VInt a) (VInt d)) as T. rewrite H in T. cbn [rmap] in T.
+  destruct (mk_csr a d) as [x|e] eqn:E; cbn [cv] in T; [|discriminate T]. injection T as T. unfold id in T. subst x.
+  split; [reflexivity|]. apply mk_csr_ok in E. exact E.
+Qed.
+Lemma csr_init_err a d e : gen_csr_Signature_init (VInt a) (VInt d) = Err e ->
+  exists e', mk_csr a d = MW.Err e' /\ cv_exn e' = e.
+Proof.
+  intro H. pose proof (tie_csr_init (VInt a) (VInt d)) as T. rewrite H in T. cbn [rmap] in T.
+  destruct (mk_csr a d) as [x|e'] eqn:E; cbn [cv] in T; [discriminate T|]. injection T as T. eauto.
+Qed.
+(* the interface Component.__init__ creates from an accepted signature *)
+Lemma csr_create_ok a d s : gen_csr_Signature_init (VInt a) (VInt d) = Ok s ->
+  exists x, gen_csr_Signature_create s = Ok {| csr_Interface_signature := (false, x) |} /\ abs_csr x = abs_csr s.
+Proof.
+  intro H. destruct (csr_init_ok a d s H) as [M _].
+  pose proof (tie_csr_create s) as T. rewrite (create_same (ACsr a d) _ M) in T. cbn [cv] in T.
+  destruct (gen_csr_Signature_create s) as [[[f x]]|e]; cbn [rmap] in T; [|discriminate T].
+  apply Ok_inj, pair_inj in T. cbn [fst snd csr_Interface_signature] in T. destruct T as [-> T2]. eauto.
+Qed.
+
+(* ================================================================ csr.Multiplexer *)
+
+Theorem tie_mux_ports : forall m o,
+  rmap (fun c => (absd (csr_Multiplexer_ports c), csr_attr (csr_Multiplexer_port_bus c))) (gen_csr_Multiplexer_init m o) =
+  match o with
+  | Some e => Err e       (* _check_memory_map / the shadow registers *)
+  | None => cv (fun p => ([("bus", AIface p [])], signature_of_port p))
+               (mux_bus (memory_MemoryMap__addr_width m) (memory_MemoryMap__data_width m))
+  end.
+Proof.
+  intros m o. unfold gen_csr_Multiplexer_init, mux_bus. destruct o as [e|]; cbn [opaque_step bind rmap]; [reflexivity|].
+  destruct (gen_csr_Signature_init _ _) as [s|e] eqn:E; cbn [bind rmap].
+  - destruct (csr_init_ok _ _ _ E) as [M A]. destruct (csr_create_ok _ _ _ E) as (x & C & Ax).
+    rewrite M. cbv zeta. rewrite C. cbn [bind MW.bind cv].
+    rewrite tie_csr_iface_setter. unfold gen_csr_Interface_get_addr_width, gen_csr_Interface_get_data_width.
+    cbn [csr_Interface_signature snd]. pose proof Ax as Ax'. rewrite A in Ax'. injection Ax' as A1 A2.
+    rewrite A1, A2, !Z.eqb_refl. cbn [negb bind rmap].
+    unfold csr_attr. cbn [csr_Multiplexer_port_bus csr_Multiplexer_ports csr_Interface_signature fst snd xorb].
+    rewrite Ax. reflexivity.
+  - destruct (csr_init_err _ _ _ E) as (e' & M & <-). rewrite M. reflexivity.
+Qed.
+Print Assumptions tie_mux_ports.
+
+(* ---- MemoryMap(...) built inside a constructor *)
+Definition mm_bad (aw dw al : pyint) : bool :=
+  (negb (is_int aw) || (zof aw <=? 0)) || (negb (is_int dw) || (zof dw <=? 0)) || (negb (is_int al) || (zof al <? 0)).
+Lemma mm_init_ok aw dw al : mm_bad aw dw al = false ->
+  exists m, gen_memory_MemoryMap_init aw dw al = Ok m /\ memory_MemoryMap__addr_width m = zof aw /\
+            memory_MemoryMap__data_width m = zof dw /\ memory_MemoryMap__alignment m = zof al.
+Proof.
+  unfold mm_bad. intro H. pose proof (tie_memory_map_init aw dw al) as T.
+  apply orb_false_elim in H. destruct H as [H H3]. apply orb_false_elim in H. destruct H as [H1 H2].
+  rewrite H1, H2, H3 in T. destruct (gen_memory_MemoryMap_init aw dw al) as [m|e]; cbn [rmap] in T; [|discriminate T].
+  apply Ok_inj, pair_inj in T. destruct T as [T T3]. apply pair_inj in T. destruct T as [T1 T2]. eauto.
+Qed.
+Lemma mm_init_bad aw dw al : mm_bad aw dw al = true -> gen_memory_MemoryMap_init aw dw al = Err ValueError.
+Proof.
+  unfold mm_bad. intro H. pose proof (tie_memory_map_init aw dw al) as T.
+  destruct (gen_memory_MemoryMap_init aw dw al) as [m|e]; cbn [rmap] in T.
+  - repeat match type of T with _ = (if ?b then _ else _) => destruct b; [discriminate T|] end. discriminate H.
+  - repeat match type of T with _ = (if ?b then _ else _) => destruct b; [injection T as ->; reflexivity|] end. discriminate T.
+Qed.
+
+(* ================================================================ csr.Decoder *)
+
+Definition one_bus (p : port) : list (string * amem) * sigv := ([("bus", AIface p [])], signature_of_port p).
+Definition al_bad (al : pyint) : bool := negb (is_int al) || (zof al <? 0).
+
+Theorem tie_csrdec_ports : forall a d al,
+  rmap (fun c => (absd (csr_Decoder_ports c), csr_attr (csr_Decoder_port_bus c))) (gen_csr_Decoder_init (VInt a) (VInt d) al) =
+  match csrdec_bus a d with
+  | MW.Ok p => if al_bad al then Err ValueError else Ok (one_bus p)     (* MemoryMap(.., alignment=alignment) *)
+  | MW.Err e => Err (cv_exn e)
+  end.
+Proof.
+  intros a d al. unfold gen_csr_Decoder_init, csrdec_bus.
+  destruct (gen_csr_Signature_init _ _) as [s|e] eqn:E; cbn [bind rmap].
+  - destruct (csr_init_ok _ _ _ E) as [M A]. destruct (csr_create_ok _ _ _ E) as (x & C & Ax).
+    rewrite M. cbv zeta. rewrite C. cbn [bind MW.bind].
+    destruct (construct_csr_accepts a d _ M) as (Pa & Pd & _).
+    destruct (al_bad al) eqn:B.
+    + rewrite mm_init_bad; [reflexivity|]. unfold mm_bad. unfold al_bad in B. rewrite B. apply orb_true_r.
+    + destruct (mm_init_ok (VInt a) (VInt d) al) as (m & Hm & M1 & M2 & _).
+      { unfold mm_bad. unfold al_bad in B. rewrite B. cbn [is_int zof negb orb]. lia. }
+      rewrite Hm. cbn [bind]. rewrite tie_csr_iface_setter.
+      unfold gen_csr_Interface_get_addr_width, gen_csr_Interface_get_data_width.
+      cbn [csr_Interface_signature snd]. pose proof Ax as Ax'. rewrite A in Ax'. injection Ax' as A1 A2.
+      rewrite A1, A2, M1, M2. cbn [zof]. rewrite !Z.eqb_refl. cbn [negb bind rmap].
+      unfold csr_attr, one_bus. cbn [csr_Decoder_port_bus csr_Decoder_ports csr_Interface_signature fst snd xorb].
+      rewrite Ax. reflexivity.
+  - destruct (csr_init_err _ _ _ E) as (e' & M & <-). rewrite M. reflexivity.
+Qed.
+Print Assumptions tie_csrdec_ports.
+
+(* ================================================================ csr.Bridge *)
+
+Theorem tie_bridge_ports : forall m o1 o2,
+  rmap (fun c => (absd (csr_Bridge_ports c), csr_attr (csr_Bridge_port_bus c))) (gen_csr_Bridge_init m o1 o2) =
+  match o1, o2 with
+  | Some e, _ => Err e          (* windows / non-Register resources / freeze() *)
+  | None, Some e => Err e       (* inside Multiplexer(memory_map) *)
+  | None, None => cv one_bus (bridge_bus (memory_MemoryMap__addr_width m) (memory_MemoryMap__data_width m))
+  end.
+Proof.
+  intros m o1 o2. unfold gen_csr_Bridge_init, bridge_bus.
+  destruct o1 as [e|]; cbn [opaque_step bind rmap]; [reflexivity|].
+  pose proof (tie_mux_ports m o2) as X.
+  destruct o2 as [e|].
+  { destruct (gen_csr_Multiplexer_init m (Some e)); cbn [rmap] in X; [discriminate X|]. injection X as ->. reflexivity. }
+  destruct (gen_csr_Multiplexer_init m None) as [c|e]; cbn [rmap bind] in *.
+  - destruct (mux_bus _ _) as [p|e'] eqn:Mx; cbn [cv] in X; [|discriminate X]. cbn [MW.bind].
+    destruct (gen_csr_Signature_init _ _) as [s|e] eqn:E; cbn [bind rmap].
+    + destruct (csr_init_ok _ _ _ E) as [M A]. destruct (csr_create_ok _ _ _ E) as (x & C & Ax).
+      rewrite M. cbv zeta. rewrite C. cbn [bind MW.bind cv].
+      rewrite tie_csr_iface_setter. unfold gen_csr_Interface_get_addr_width, gen_csr_Interface_get_data_width.
+      cbn [csr_Interface_signature snd]. pose proof Ax as Ax'. rewrite A in Ax'. injection Ax' as A1 A2.
+      rewrite A1, A2, !Z.eqb_refl. cbn [negb bind rmap].
+      unfold csr_attr, one_bus. cbn [csr_Bridge_port_bus csr_Bridge_ports csr_Interface_signature fst snd xorb].
+      rewrite Ax. reflexivity.
+    + destruct (csr_init_err _ _ _ E) as (e' & M & <-). rewrite M. reflexivity.
+  - destruct (mux_bus _ _) as [p|e'] eqn:Mx; cbn [cv] in X; [discriminate X|]. injection X as ->. reflexivity.
+Qed.
+Print Assumptions tie_bridge_ports.
